@@ -257,9 +257,51 @@ def body_identical(ctx, n):
     ctx.witness("lemma")
 
 
+def body_constructor(ctx, lo, hi, period):
+    """The derived settings for every window size in [lo, hi] (symbolic): evaluation step = min(100, round(sample_period x
+    window)), Page-Hinkley threshold = 1% of the window rounded to an integer, handed to a monitor without burn-in.
+    Exact ties of the rounding (window = 50 mod 100, where the double 0.01 x window and the real number differ) are
+    assumed away."""
+    M = importlib.import_module("menelaus.data_drift.pca_cd")
+    w = ctx.int("window_size")
+    ctx.assume(between(lo, w, hi))
+    ctx.assume(lnot(w % 100 == 50))
+    delta = ctx.real("delta")
+
+    def floor(x):
+        if not isinstance(x, Sym):
+            return np.floor(x)
+        k = ctx.int("floor")
+        ctx.assume_unchecked(land(k <= x, x < k + 1))
+        return k
+
+    with rebind(M, np=stubs.NpShim(floor=floor)):
+        d = M.PCACD(window_size=w, sample_period=period, delta=delta, divergence_metric="intersection")
+    ph = d.ph_threshold
+    ctx.prove(land(100 * ph - 50 < w, w < 100 * ph + 50), "page-hinkley-threshold-is-one-percent-of-the-window-rounded")
+    mon = d._drift_detection_monitor
+    ctx.prove(land(ctx.eq(mon.threshold, ph), mon.burn_in == 0, ctx.eq(mon.delta, delta)), "monitor-gets-threshold-delta-and-no-burn-in")
+    st = d.step
+    if period == 1.0:
+        ctx.prove(st == sym_min(100, w), "step-is-min-100-and-rounded-period-times-window")
+    else:
+        # round(w / 20) away from ties, capped at 100
+        ctx.assume(lnot(w % 20 == 10))
+        ctx.prove(lor(land(st == 100, w >= 1990), land(st <= 100, 20 * st - 10 < w, w < 20 * st + 10)),
+                  "step-is-min-100-and-rounded-period-times-window")
+    b = d.bins
+    ctx.prove(land(b * b <= w, w < (b + 1) * (b + 1)), "bins-is-floor-sqrt-window")
+    ctx.witness("constructed")
+
+
 def jobs(tier):
     q = tier == "quick"
     out = []
+    # constructor arithmetic for every window size up to 400 (seed C11-8: int() instead of round() only shows from 51 on)
+    for lo, hi in ((1, 49), (51, 110), (111, 170), (171, 230)) + (() if q else ((231, 290), (291, 349), (351, 400))):
+        for period in (0.05, 1.0):
+            out.append(Job(f"constructor-w{lo}to{hi}-p{period}", "checks.c11:body_constructor", {"lo": lo, "hi": hi, "period": period},
+                           expect=("constructed",), opts={"validate": 2}))
     for w in (2, 4) if q else (2, 3, 4, 5):
         for npcs in (1, 2):
             for metric in ("intersection", "kl"):
